@@ -1979,6 +1979,23 @@ join_recv(nng_socket s, nng_msg **mp, int tran)
 	}
 }
 
+// family of the hub: BUS (this property), or - run from the specs of C05 / C07,
+// whose "offered to every subscriber / respondent" clauses meet the same
+// situation - PUB with SUB peers, SURVEYOR with RESPONDENT peers
+static int         join_family; // 0 bus, 1 pub->sub, 2 surveyor->respondent
+static const char *join_prop[3]   = { "C09", "C05", "C07" };
+static const char *join_fam[3]    = { "bus", "pub-sub", "surveyor-respondent" };
+
+static int
+join_open(nng_socket *s, bool hub)
+{
+	switch (join_family) {
+	case 1: return hub ? nng_pub0_open(s) : nng_sub0_open(s);
+	case 2: return hub ? nng_surveyor0_open(s) : nng_respondent0_open(s);
+	default: return nng_bus0_open(s);
+	}
+}
+
 static void
 join_case(long idx, vf_rng *r)
 {
@@ -1994,13 +2011,15 @@ join_case(long idx, vf_rng *r)
 	vf_case_begin(idx, "join: hub with %d peers over %s, %s, endpoints started %s, %d rounds", n, vf_tran_names[tran], role, threads ? "from threads" : "in a loop", rounds);
 	for (int round = 0; round < rounds; round++) {
 		pthread_t th[JMAX];
-		if (nng_bus0_open(&hub) != 0) vf_harness_fail("bus open");
+		if (join_open(&hub, true) != 0) vf_harness_fail("hub open");
+		if (join_family == 2) nng_socket_set_ms(hub, NNG_OPT_SURVEYOR_SURVEYTIME, 20000);
 		nng_socket_set_int(hub, NNG_OPT_RECVBUF, 64);
 		nng_socket_set_ms(hub, NNG_OPT_RECVTIMEO, 15000);
 		nng_socket_set_ms(hub, NNG_OPT_RECONNMINT, 5);
 		nng_socket_set_ms(hub, NNG_OPT_RECONNMAXT, 20);
 		for (int i = 0; i < n; i++) {
-			if (nng_bus0_open(&P[i].s) != 0) vf_harness_fail("bus open");
+			if (join_open(&P[i].s, false) != 0) vf_harness_fail("peer open");
+			if (join_family == 1) nng_sub0_socket_subscribe(P[i].s, "", 0);
 			nng_socket_set_ms(P[i].s, NNG_OPT_RECVTIMEO, 15000);
 			nng_socket_set_ms(P[i].s, NNG_OPT_RECONNMINT, 5);
 			nng_socket_set_ms(P[i].s, NNG_OPT_RECONNMAXT, 20);
@@ -2042,8 +2061,10 @@ join_case(long idx, vf_rng *r)
 		} else {
 			vf_stat("join_rounds", 1);
 			vf_stat("join_pipes", n);
-			// hub -> every peer, three messages
-			for (uint32_t k = 0; k < 3; k++) {
+			// hub -> every peer, three messages (one survey)
+			uint32_t K = join_family == 2 ? 1 : 3;
+			bool     got_hub_msg[JMAX] = { 0 };
+			for (uint32_t k = 0; k < K; k++) {
 				nng_msg *m;
 				if (nng_msg_alloc(&m, 0) != 0) vf_harness_fail("msg");
 				nng_msg_append_u32(m, 0x4a4f494eu);
@@ -2055,7 +2076,7 @@ join_case(long idx, vf_rng *r)
 				}
 			}
 			for (int i = 0; i < n; i++) {
-				for (uint32_t k = 0; k < 3; k++) {
+				for (uint32_t k = 0; k < K; k++) {
 					nng_msg *m  = NULL;
 					int      rv = join_recv(P[i].s, &m, tran);
 					uint32_t a = 0, b = 0, c = 0;
@@ -2067,14 +2088,15 @@ join_case(long idx, vf_rng *r)
 					if (m != NULL) nng_msg_free(m);
 					if (rv == 0 && a == 0x4a4f494eu && b == (uint32_t) round && c == k) {
 						vf_stat("join_deliveries_checked", 1);
+						got_hub_msg[i] = true;
 						continue;
 					}
 					// still connected on both sides? (a lost connection may lose messages)
 					if (vf_pipe_count(hub) == n && vf_pipe_count(P[i].s) == 1) {
 						char key[96];
-						snprintf(key, sizeof(key), "C09/not-offered/concurrent-join/%s", role);
-						vf_violation(key, "hub with %d peers over %s (%s, endpoints started %s), round %d: peer %d %s message %u of 3 sent after all %d connections were up on both sides and the library was quiescent (queues empty): a connected peer was not offered the message", n, vf_tran_names[tran], role,
-						    threads ? "from threads" : "in a loop", round, i, rv != 0 ? "did not receive" : "received something else instead of", k, n);
+						snprintf(key, sizeof(key), "%s/not-offered/concurrent-join/%s%s%s", join_prop[join_family], role, join_family ? "/" : "", join_family ? join_fam[join_family] : "");
+						vf_violation(key, "%s hub with %d peers over %s (%s, endpoints started %s), round %d: peer %d %s message %u of %u sent after all %d connections were up on both sides and the library was quiescent (queues empty): a connected peer was not offered the message", join_fam[join_family], n, vf_tran_names[tran], role,
+						    threads ? "from threads" : "in a loop", round, i, rv != 0 ? "did not receive" : "received something else instead of", k, K, n);
 						if (getenv("C09_DIAG") != NULL) {
 							nng_stat *st = NULL;
 							if (nng_stats_get(&st) == 0) {
@@ -2092,9 +2114,13 @@ join_case(long idx, vf_rng *r)
 					break;
 				}
 			}
-			// every peer -> hub, one message each
-			for (int i = 0; i < n; i++) {
+			// every peer -> hub, one message each (a response from every
+			// respondent that got the survey; nothing towards a publisher)
+			int expect = 0;
+			for (int i = 0; i < n && join_family != 1; i++) {
 				nng_msg *m;
+				if (join_family == 2 && !got_hub_msg[i]) continue;
+				expect++;
 				if (nng_msg_alloc(&m, 0) != 0) vf_harness_fail("msg");
 				nng_msg_append_u32(m, 0x50454552u);
 				nng_msg_append_u32(m, (uint32_t) i);
@@ -2102,7 +2128,7 @@ join_case(long idx, vf_rng *r)
 			}
 			bool seen[JMAX] = { 0 };
 			int  got        = 0;
-			for (int i = 0; i < n; i++) {
+			for (int i = 0; i < expect; i++) {
 				nng_msg *m = NULL;
 				if (join_recv(hub, &m, tran) != 0) break;
 				uint32_t a = 0, b = 0;
@@ -2116,14 +2142,14 @@ join_case(long idx, vf_rng *r)
 					got++;
 				}
 			}
-			if (got != n && vf_pipe_count(hub) == n) {
+			if (got != expect && vf_pipe_count(hub) == n) {
 				char key[96];
-				snprintf(key, sizeof(key), "C09/not-offered/concurrent-join/%s/to-hub", role);
-				vf_violation(key, "hub with %d peers over %s (%s), round %d: the hub received the message of %d of %d connected peers (receive buffer 64, queues empty)", n, vf_tran_names[tran], role, round, got, n);
+				snprintf(key, sizeof(key), "%s/not-offered/concurrent-join/%s/to-hub%s%s", join_prop[join_family], role, join_family ? "/" : "", join_family ? join_fam[join_family] : "");
+				vf_violation(key, "%s hub with %d peers over %s (%s), round %d: the hub received the message of %d of %d connected peers that sent one (receive buffer 64, queues empty)", join_fam[join_family], n, vf_tran_names[tran], role, round, got, expect);
 			} else {
 				vf_stat("join_hub_receives_checked", got);
 			}
-			vf_class("join/%s/%s/n=%d/%s", role, vf_tran_names[tran], n, threads ? "threads" : "loop");
+			vf_class("join/%s/%s/%s/n=%d/%s", join_fam[join_family], role, vf_tran_names[tran], n, threads ? "threads" : "loop");
 		}
 		nng_socket_close(hub);
 		for (int i = 0; i < n; i++) nng_socket_close(P[i].s);
@@ -2148,7 +2174,8 @@ main(int argc, char **argv)
 			raw_case(idx, &r);
 		} else if (!strcmp(vf_mode, "noblock")) {
 			noblock_case(idx, &r);
-		} else if (!strcmp(vf_mode, "join")) {
+		} else if (!strncmp(vf_mode, "join", 4)) {
+			join_family = !strcmp(vf_mode, "join:pub") ? 1 : !strcmp(vf_mode, "join:survey") ? 2 : 0;
 			join_case(idx, &r);
 		} else {
 			mesh_case(idx, &r);
